@@ -36,8 +36,13 @@ Print Assumptions C03_source_skeleton.
 Theorem C03_index_attrs_source :
   sel_indices_attrs = [("scan_indices", "Observation/scan_index"); ("compscan_indices", "Observation/compscan_index");
                        ("target_indices", "Observation/target_index")]%string
-  /\ it_field WScans = d_scan /\ it_field WCompscans = d_cscan /\ it_tfield = d_target.
-Proof. exact index_attrs_ok. Qed.
+  /\ it_field WScans = d_scan /\ it_field WCompscans = d_cscan /\ it_tfield = d_target
+  (* the `target = ...` statement of each generator: scans() reads target_indices[0] (lowest-numbered target of the selection),
+     compscans() the target index of the first selected dump (self.sensor['Observation/target_index'][0]) *)
+  /\ (forall o m, pick_target WScans o m = hd_error (indices_of d_target o m))
+  /\ (forall o m, pick_target WCompscans o m = hd_error (map d_target (kept_dumps o m))).
+Proof. split; [apply index_attrs_ok|]. split; [apply index_attrs_ok|]. split; [apply index_attrs_ok|]. split; [apply index_attrs_ok|].
+  split; [exact pick_target_scans | exact pick_target_compscans]. Qed.
 Print Assumptions C03_index_attrs_source.
 
 (* tie: the numbers and strings in the decisions of the segmentation pipelines of VisibilityDataV4 / H5DataV3 /
@@ -82,14 +87,18 @@ Print Assumptions C03_partition.
 
 (* YIELDED VALUES.  The state (label) yielded is that of every dump shown, provided the event-indexed sensor agrees
    with the per-dump sensors (names_ok; true of the segmentations of the format classes, shown on the example and
-   checked on every generated data set).  The target yielded is a target of the dumps shown, the lowest-numbered one;
-   it is THE target of the dumps shown whenever they share one target (every scan of a segmented observation). *)
+   checked on every generated data set).  The target yielded is a target of the dumps shown: scans() yields the
+   lowest-numbered one, compscans() the target of the FIRST dump shown in time order (no earlier dump is shown) - the
+   "first target associated with compound scan" of its docstring, full strength after the repair of C03-F2; either way it
+   is THE target of the dumps shown whenever they share one target (every scan of a segmented observation). *)
 Theorem C03_yield_values : forall B (O : sobs) w (body : st -> res (B * st)) s ys sf,
   body_ok (so O) body -> Inv3 (so O) s -> iterate O w body s = Ok (ys, sf) ->
   forall y, In y ys ->
   (names_ok O w -> forall p d, nth_error (o_dumps (so O)) p = Some d -> shown y p = true -> y_name y = namefield w d)
   /\ (exists p d, nth_error (o_dumps (so O)) p = Some d /\ shown y p = true /\ d_target d = y_target y)
-  /\ (forall p d, nth_error (o_dumps (so O)) p = Some d -> shown y p = true -> y_target y <= d_target d)
+  /\ (w = WScans -> forall p d, nth_error (o_dumps (so O)) p = Some d -> shown y p = true -> y_target y <= d_target d)
+  /\ (w = WCompscans -> exists p d, nth_error (o_dumps (so O)) p = Some d /\ shown y p = true /\ d_target d = y_target y
+                                    /\ forall q, (q < p)%nat -> shown y q = false)
   /\ (forall t, (forall p d, nth_error (o_dumps (so O)) p = Some d -> shown y p = true -> d_target d = t) ->
         y_target y = t).
 Proof. exact yield_values. Qed.
@@ -253,7 +262,7 @@ Theorem C03_example :
   /\ exists ys sf, iterate_nested ex_O WCompscans WScans ex_s = Ok (ys, sf)
        /\ map (summary (map (summary (fun _ : unit => tt)))) ys =
           [(0, 1, 1, [5; 6], [(2, 0, 1, [5; 6], tt)]);
-           (1, 2, 0, [7; 8; 9], [(3, 2, 1, [7; 8], tt); (4, 3, 0, [9], tt)])]
+           (1, 2, 1, [7; 8; 9], [(3, 2, 1, [7; 8], tt); (4, 3, 0, [9], tt)])]
        /\ positions (tk sf) = [5; 6; 7; 8; 9] /\ fk sf = fk ex_s /\ bk sf = bk ex_s.
 Proof. exact ex_facts. Qed.
 Print Assumptions C03_example.
@@ -370,7 +379,7 @@ Theorem C03_abandoned : forall B (O : sobs) w (body : st -> res (B * st)) n s ys
   /\ wk sf = wk s /\ flk sf = flk s
   /\ (forall k, lookup k (sel sf) = if String.eqb k (it_pop w) then Some (VScans [SIdx (ab_index a)]) else lookup k (sel s))
   /\ name_of O w (ab_index a) = Some (ab_name a)
-  /\ (exists rest, indices_of d_target (so O) (tk sf) = ab_target a :: rest).
+  /\ pick_target w (so O) (tk sf) = Some (ab_target a).
 Proof.
   intros B O w body n s ys a sf HB H3 H.
   destruct (ScansBodyP.break_spec O w body HB n s ys a sf H3 H) as (A1 & A2 & A3 & _ & A4).
@@ -483,3 +492,83 @@ Theorem C03_concat_example :
   /\ ScansConcat.separatedb (map (Categorical.expand zd) [ScansConcat.shift_cd 0 ScansConcatP.ex_part; ScansConcat.shift_cd 1 ScansConcatP.ex_part]) = false.
 Proof. exact (conj ScansConcatP.ex_index_part (conj ScansConcatP.ex_run_on ScansConcatP.ex_too_small_collides)). Qed.
 Print Assumptions C03_concat_example.
+
+(* ================================================================================================================ *)
+(* THE STORED ATTRIBUTES scan_indices / compscan_indices / target_indices (property anchor "state": "indices present in the
+   current selection").  Model/ScansIdx.v keeps them as part of the state: select() assigns them in its last statements
+   (translated table sel_indices_attrs), `_set_keep(old_timekeep.copy())` after a yield does NOT, the generators read the
+   STORED values (`self.scan_indices[:]`, `self.target_indices[0]`). *)
+From KV Require Model.ScansIdx Proofs.ScansIdxP.
+Import ScansIdx ScansIdxP.
+
+(* what "fresh" means: the three attributes by name are indices_of of the per-dump index sensors over the CURRENT time mask;
+   indices_of = strictly increasing (sorted, duplicate-free) and exactly the indices of the dumps kept *)
+Theorem C03_index_lists_mean : forall o x, fresh o x ->
+  xattr "scan_indices" x = indices_of d_scan o (tk (x_st x))
+  /\ xattr "compscan_indices" x = indices_of d_cscan o (tk (x_st x))
+  /\ xattr "target_indices" x = indices_of d_target o (tk (x_st x)).
+Proof. exact fresh_means. Qed.
+Print Assumptions C03_index_lists_mean.
+Theorem C03_indices_of_mean : forall f o m,
+  StronglySorted Z.lt (indices_of f o m)
+  /\ forall i, In i (indices_of f o m) <-> exists p d, nth_error (o_dumps o) p = Some d /\ nth p m false = true /\ f d = i.
+Proof. exact indices_of_means. Qed.
+Print Assumptions C03_indices_of_mean.
+
+(* REFINEMENT.  For every observation, both generators, every body on the extended state that refines a body on the plain
+   state, started on fresh attributes: the generator reading STORED attributes does exactly what `iterate` (where they are
+   computed on demand) does - same yields, same final state, same error -, the attributes the consumer sees at every yield
+   are fresh, and they are fresh after exhaustion (also when nothing was selected: the final select() recomputes them).
+   So all theorems above about `iterate` are theorems about the generator with stored attributes. *)
+Theorem C03_index_lists_refinement : forall B (O : sobs) w (xbody : xst -> res (B * xst)) body, refines (so O) xbody body ->
+  forall x, fresh (so O) x ->
+  match xiterate O w xbody x with
+  | Ok (ys, ix, xf) => iterate O w body (x_st x) = Ok (ys, x_st xf) /\ fresh (so O) xf /\ yields_fresh (so O) ys ix
+  | Err e => iterate O w body (x_st x) = Err e
+  end.
+Proof. exact xiterate_refines. Qed.
+Print Assumptions C03_index_lists_refinement.
+
+(* nesting closes (a generator run to exhaustion is a refining body), and so do bodies made of select() calls *)
+Theorem C03_index_lists_nesting : forall O w, refines (so O) (xiterate_plain O w) (iterate_plain O w).
+Proof. exact xiterate_plain_refines. Qed.
+Print Assumptions C03_index_lists_nesting.
+Theorem C03_index_lists_selecting_body : forall O calls, refines (so O) (xbody_calls O calls) (body_calls_u O calls).
+Proof. exact xbody_calls_refines. Qed.
+Print Assumptions C03_index_lists_selecting_body.
+
+(* abandoned iteration: same state as iterate_break, attributes fresh (they describe the abandoned item) *)
+Theorem C03_index_lists_abandoned : forall B (O : sobs) w (xbody : xst -> res (B * xst)) body, refines (so O) xbody body ->
+  forall n x, fresh (so O) x ->
+  match xiterate_break O w xbody n x with
+  | Ok (ys, a, xf) => iterate_break O w body n (x_st x) = Ok (ys, a, x_st xf) /\ fresh (so O) xf
+  | Err e => iterate_break O w body n (x_st x) = Err e
+  end.
+Proof. exact xiterate_break_refines. Qed.
+Print Assumptions C03_index_lists_abandoned.
+
+(* INVARIANT OVER HISTORIES.  After EVERY sequence of select() calls, complete iterations (plain, nested either way, with a
+   body that calls select()) and abandoned iterations, starting from a freshly opened data set: the model with stored
+   attributes went through the states of the plain model, and the three stored attributes are the sorted duplicate-free
+   indices present in the current time selection. *)
+Theorem C03_index_lists_after_every_history : forall O ops x', xrun O (xinit (so O)) ops = Some x' ->
+  run O (init (so O)) ops = Some (x_st x')
+  /\ xattr "scan_indices" x' = indices_of d_scan (so O) (tk (x_st x'))
+  /\ xattr "compscan_indices" x' = indices_of d_cscan (so O) (tk (x_st x'))
+  /\ xattr "target_indices" x' = indices_of d_target (so O) (tk (x_st x')).
+Proof. exact index_lists_after_every_history. Qed.
+Print Assumptions C03_index_lists_after_every_history.
+
+(* non-vacuity and the boundary: on the 12-dump example (scans 2,3,4 selected) the attributes ARE stale while the generator
+   is suspended between two items (old mask back, attributes of item 2) - a state no consumer can observe -, fresh at every
+   yield and after exhaustion *)
+Theorem C03_index_lists_stale_example :
+  fresh (so ex_O) ex_x
+  /\ xattr "scan_indices" ex_x = [2; 3; 4]
+  /\ (exists xb, xbetween ex_O WScans ex_x = Some xb /\ positions (tk (x_st xb)) = [5; 6; 7; 8; 9]
+        /\ xattr "scan_indices" xb = [2] /\ xattr "target_indices" xb = [1] /\ freshb (so ex_O) xb = false)
+  /\ (exists ys ix xf, xiterate ex_O WScans xno_body ex_x = Ok (ys, ix, xf)
+        /\ map (fun t => map snd t) ix = [[[2]; [0]; [1]]; [[3]; [1]; [1]]; [[4]; [1]; [0]]]
+        /\ map snd (x_idx xf) = [[2; 3; 4]; [0; 1]; [0; 1]] /\ freshb (so ex_O) xf = true).
+Proof. exact stale_between_items. Qed.
+Print Assumptions C03_index_lists_stale_example.
